@@ -99,7 +99,7 @@ def enum_cases(tier, seed):
                 for k, o in enumerate(sorted(orders)):
                     cases.append({"spec": spec, "shape": shape, "op": "del", "indices": list(o),
                                   "container": "array" if (k + r) % 3 == 0 else "list"})
-        for i in list(range(n)) + [-1, None]:
+        for i in list(range(-n, n)) + [None]:
             cases.append({"spec": spec, "shape": shape, "op": "pop", "index": i})
         if n <= 4:
             for i in range(n):
@@ -140,7 +140,7 @@ def oracle(case, stats):
                     a.pop()
                 else:
                     a.pop(i)
-            k = n - 1 if i in (None, -1) else i
+            k = n - 1 if i is None else (i + n if i < 0 else i)
             want = M.m_delete(m, [k])
             what = "after pop(%s)" % ("" if i is None else i)
     except Violation:
@@ -177,7 +177,7 @@ def random_case(draw, tier="quick"):
         case["indices"] = sub
         case["container"] = draw(st.sampled_from(["list", "array"]))
     elif op == "pop":
-        case["index"] = draw(st.sampled_from([None, -1] + list(range(n))))
+        case["index"] = draw(st.sampled_from([None] + list(range(-n, n))))
     else:
         case["first"] = sub[:max(1, k // 2)]
         rest = n - len(case["first"])
